@@ -79,6 +79,15 @@ fn main() {
                 None => println!("{text}"),
             }
         }
+        "corpus" => {
+            let dir = args.get(3).cloned().unwrap_or_default();
+            let seed: u64 = arg(&args, "--seed").and_then(|s| s.parse().ok()).unwrap_or(1);
+            let files = prop.corpus(seed);
+            for (i, f) in files.iter().enumerate() {
+                let _ = std::fs::write(format!("{dir}/gen-{i:04}"), f);
+            }
+            println!("{} corpus files written to {dir}", files.len());
+        }
         "replay" => {
             let path = args.get(3).cloned().unwrap_or_default();
             let text = match std::fs::read_to_string(&path) {
